@@ -165,12 +165,16 @@ impl Monitor for C14 {
                             if set.contains(&x) {
                                 continue;
                             }
-                            // no requirements AND no constrains: x mentions no package at all, so trying
-                            // it cannot change which package-level lists apply to the solvables that
-                            // are already installed
-                            let free = matches!(&u.solvs[x as usize].deps, Deps::Known { reqs, cons } if reqs.is_empty() && cons.is_empty());
+                            // no requirements: the closure of x is x itself. Its constrains may mention
+                            // packages (fetching their candidates can reveal the lock / exclusion list
+                            // of a soft-named solvable accepted earlier, which keeps its exemption:
+                            // D15, D19) - whether x fits is decided by the reference rules below
+                            let free = matches!(&u.solvs[x as usize].deps, Deps::Known { reqs, .. } if reqs.is_empty());
                             if !free {
                                 continue;
+                            }
+                            if matches!(&u.solvs[x as usize].deps, Deps::Known { cons, .. } if !cons.is_empty()) {
+                                ctx.rep.count("requirement-free-soft-solvables-with-constrains-rejected");
                             }
                             ctx.rep.count("requirement-free-soft-solvables-rejected");
                             let mut plus: Vec<u32> = sol.clone();
